@@ -342,6 +342,41 @@ func E9InResult(c *core.Ctx, r *core.Report, ops []string) {
 		return
 	}
 	r.OK("E9.edge", "canvas.SweepPoint.InResult|tail", c.Pos(sw.End()), "")
+	// the final comparison is symmetric: which of the two flags is the below-side one is decided
+	// by what it reads (a majority of lower-side windings over all cases), not by operand order
+	{
+		lowReads := map[types.Object]int{}
+		ast.Inspect(sw, func(m ast.Node) bool {
+			as, ok := m.(*ast.AssignStmt)
+			if !ok || len(as.Lhs) != 1 || len(as.Rhs) != 1 {
+				return true
+			}
+			id, ok := as.Lhs[0].(*ast.Ident)
+			if !ok {
+				return true
+			}
+			o := core.ObjOf(info, id)
+			if o != below && o != above {
+				return true
+			}
+			ast.Inspect(as.Rhs[0], func(k ast.Node) bool {
+				if rid, ok := k.(*ast.Ident); ok {
+					if cl, ok := class[core.ObjOf(info, rid)]; ok {
+						if cl.side == "lower" {
+							lowReads[o]++
+						} else {
+							lowReads[o]--
+						}
+					}
+				}
+				return true
+			})
+			return true
+		})
+		if lowReads[below] < lowReads[above] {
+			below, above = above, below
+		}
+	}
 	seen := map[string]bool{}
 	for _, s := range sw.Body.List {
 		cc := s.(*ast.CaseClause)
